@@ -693,6 +693,14 @@ namespace bloch::compiler {
                         throw BlochError(ErrorCategory::Semantic, m.line, m.column,
                                          "return type mismatch overriding '" + m.name + "'");
                     }
+                } else if (baseMethod && baseMethod->isVirtual && !baseMethod->isStatic &&
+                           !m.isStatic && paramTypesEqual(baseMethod->paramTypes, m.paramTypes)) {
+                    // "override required to replace a virtual base method": without it the method
+                    // only hid the base one - calls through a base reference still ran the base
+                    // method, a bodyless one included
+                    throw BlochError(ErrorCategory::Semantic, m.line, m.column,
+                                     "'" + m.name +
+                                         "' replaces a virtual base method: 'override' is required");
                 }
                 if (m.isVirtual && m.isStatic) {
                     throw BlochError(ErrorCategory::Semantic, m.line, m.column,
